@@ -801,3 +801,79 @@ B('g14i_next_filter_exists', ['C14'], 'R14.a',
   (ST, _LOOP, "    candidates = (pjoin(sr, rel_path) for sr in search_paths)\n    return next(filter(os.path.exists, candidates), None)\n"))
 B('g14i_next_filter_reversed', ['C14'], 'R14.i',
   (ST, _LOOP, "    candidates = [pjoin(sr, rel_path) for sr in search_paths]\n    return next(filter(isfile, reversed(candidates)), None)\n"))
+
+# ------------------------------------------------------------------ R14.e / R14.m: If-Modified-Since through a public helper
+# (round g) A public method / function is not dissolved by the front-end: the value it hands to build_file_response is
+# judged through its returns, in the caller's terms -- as if it were written in line.  Both endpoints must pass the request's
+# If-Modified-Since itself (sibling agreement), not filtered by the method / the clock (whatever the 200 branch sends as
+# Last-Modified must be accepted by the 304 branch when echoed).
+_APP_GFR = "    def get_file_response(self, path, request):\n"
+_SFR_GFR = "    def get_file_response(self, request):\n"
+_APP_IMS = "                   cached_modify_time=request.if_modified_since,\n                   mimetype=None,"
+_SFR_IMS = "                   cached_modify_time=request.if_modified_since,\n                   mimetype=self.mimetype,"
+_APP_IMS_HELPER = "                   cached_modify_time=self.get_cached_modify_time(request),\n                   mimetype=None,"
+T('g14m_ims_helper_method', ['C14'],
+  (ST, _APP_GFR, "    def get_cached_modify_time(self, request):\n        return request.if_modified_since\n\n" + _APP_GFR),
+  (ST, _APP_IMS, _APP_IMS_HELPER))
+T('g14m_ims_helper_function_both', ['C14'],
+  (ST, _CLS_ROUTE, "def client_validator(req):\n    since = req.if_modified_since\n    return since\n\n\n" + _CLS_ROUTE),
+  (ST, _SFR_IMS, "                   cached_modify_time=client_validator(request),\n                   mimetype=self.mimetype,"),
+  (ST, _APP_IMS, "                   cached_modify_time=client_validator(request),\n                   mimetype=None,"))
+T('g14m_ims_helper_route_keyword', ['C14'],
+  (ST, _SFR_GFR, "    def client_time(self, req, default=None):\n        since = req.if_modified_since\n        return since\n\n" + _SFR_GFR),
+  (ST, _SFR_IMS, "                   cached_modify_time=self.client_time(req=request),\n                   mimetype=self.mimetype,"))
+B('g14m_ims_helper_drops_future_dates', ['C14'], 'R14.m',
+  (ST, _APP_GFR, "    def get_cached_modify_time(self, request):\n        ims = request.if_modified_since\n"
+                 "        if ims is not None and ims > datetime.utcnow():\n            ims = None\n        return ims\n\n" + _APP_GFR),
+  (ST, _APP_IMS, _APP_IMS_HELPER))
+B('g14m_ims_route_helper_get_only', ['C14'], 'R14.m',
+  (ST, _SFR_GFR, "    def client_time(self, request):\n        if request.method != 'GET':\n            return None\n"
+                 "        return request.if_modified_since\n\n" + _SFR_GFR),
+  (ST, _SFR_IMS, "                   cached_modify_time=self.client_time(request),\n                   mimetype=self.mimetype,"))
+B('g14m_ims_shared_function_clock_filter', ['C14'], 'R14.m',
+  (ST, _CLS_ROUTE, "def client_validator(req):\n    since = req.if_modified_since\n    now = datetime.utcnow()\n"
+                   "    return since if since and since <= now else None\n\n\n" + _CLS_ROUTE),
+  (ST, _SFR_IMS, "                   cached_modify_time=client_validator(request),\n                   mimetype=self.mimetype,"),
+  (ST, _APP_IMS, "                   cached_modify_time=client_validator(request),\n                   mimetype=None,"))
+B('g14m_ims_helper_wrong_header', ['C14'], 'R14.m',
+  (ST, _APP_GFR, "    def get_cached_modify_time(self, request):\n        return request.if_unmodified_since\n\n" + _APP_GFR),
+  (ST, _APP_IMS, _APP_IMS_HELPER))
+B('g14m_ims_helper_runs_off_its_end', ['C14'], 'R14.m',
+  (ST, _APP_GFR, "    def get_cached_modify_time(self, request):\n        if request.method in ('GET', 'HEAD'):\n"
+                 "            return request.if_modified_since\n\n" + _APP_GFR),
+  (ST, _APP_IMS, _APP_IMS_HELPER))
+B('g14e_ims_helper_other_request', ['C14'], 'R14.e',
+  (ST, _APP_GFR, "    def get_cached_modify_time(self, request, previous=None):\n        return previous\n\n" + _APP_GFR),
+  (ST, _APP_IMS, _APP_IMS_HELPER))
+# the same filter written in line (no helper): sibling divergence + the clock decides whether the validator is heard
+B('g14m_ims_inline_clock_filter_route', ['C14'], 'R14.m',
+  (ST, _SFR_GFR + "        bfr = build_file_response\n",
+       _SFR_GFR + "        bfr = build_file_response\n        since = request.if_modified_since\n"
+                  "        if since is not None and since > datetime.utcnow():\n            since = None\n"),
+  (ST, _SFR_IMS, "                   cached_modify_time=since,\n                   mimetype=self.mimetype,"))
+# a helper that decides by the clock between two spellings of the same header value still lets the clock choose: caught;
+# one that tests something else than the clock and returns the header on both branches is silent
+B('g14m_ims_helper_clock_window', ['C14'], 'R14.m',
+  (ST, _APP_GFR, "    def get_cached_modify_time(self, request):\n        now = datetime.utcnow()\n        stale = request.if_modified_since is not None and request.if_modified_since > now\n"
+                 "        if stale:\n            return None\n        return request.if_modified_since\n\n" + _APP_GFR),
+  (ST, _APP_IMS, _APP_IMS_HELPER))
+T('g14m_ims_helper_two_returns', ['C14'],
+  (ST, _APP_GFR, "    def get_cached_modify_time(self, request):\n        if self.cache_timeout:\n            return request.if_modified_since\n"
+                 "        return request.if_modified_since\n\n" + _APP_GFR),
+  (ST, _APP_IMS, _APP_IMS_HELPER))
+# other values that can move into a public helper: the caching switch, the looked-up path
+_APP_CT = "        resp = bfr(full_path,\n                   cache_timeout=self.cache_timeout,\n"
+_APP_CT_HELPER = "        resp = bfr(full_path,\n                   cache_timeout=self.get_cache_timeout(),\n"
+T('g14m_cache_timeout_helper_method', ['C14'],
+  (ST, _APP_GFR, "    def get_cache_timeout(self):\n        return self.cache_timeout\n\n" + _APP_GFR),
+  (ST, _APP_CT, _APP_CT_HELPER))
+B('g14m_cache_timeout_helper_off_in_debug', ['C14'], 'R14.m',
+  (ST, _APP_GFR, "    def get_cache_timeout(self):\n        if self.debug:\n            return 0\n        return self.cache_timeout\n\n" + _APP_GFR),
+  (ST, _APP_CT, _APP_CT_HELPER))
+_FIND_LINE = "            full_path = find_file(self.search_paths, path)\n"
+T('g14e_path_helper_method', ['C14'],
+  (ST, _APP_GFR, "    def request_path(self, path):\n        return path\n\n" + _APP_GFR),
+  (ST, _FIND_LINE, "            full_path = find_file(self.search_paths, self.request_path(path))\n"))
+B('g14e_path_helper_strips', ['C14'], 'R14.e',
+  (ST, _APP_GFR, "    def request_path(self, path):\n        return path.lstrip('.')\n\n" + _APP_GFR),
+  (ST, _FIND_LINE, "            full_path = find_file(self.search_paths, self.request_path(path))\n"))
